@@ -226,6 +226,9 @@ func runC07(c *report.Ctx) {
 	c.Clause("5 no lock held by hand across a panic")
 	checkManualLockRegions(c, sites)
 	checkLockPairing(c)
+	c.Clause("6 the substitute error reply cannot panic; shutdown cannot wait for an extension that never started")
+	checkReplySinkGuards(c) // trySendDefaultErrorResponse tolerates exactly the refusals the sink returns for a stale id
+	checkShutdownAgents(c)  // wg.Add per started extension only: reset/shutdown return
 }
 
 // reachableSync2: from background roots, following go statements too (a goroutine started by a
@@ -624,11 +627,7 @@ func checkCancelCoverage(c *report.Ctx) {
 		once := len(an.CallsTo(cf, "sync.Once.Do")) == 1
 		c.Check("R-FANOUT", "L/core.registrationServiceImpl.CancelFlows/both-flows", "cancelling flows cancels the init flow and the invoke flow (first error wins through cancelOnce)", ok && once, fpos(cf), 3, "both flows cancelled: %v; through cancelOnce: %v", ok, once)
 	}
-	// the reset re-arms the once
-	if cl := fn(c, coreP, "(*registrationServiceImpl).Clear"); cl != nil {
-		fw := fieldWrites(cl, "L/core.registrationServiceImpl")
-		c.Check("R-RESET", "L/core.registrationServiceImpl.Clear/re-arms-cancel", "clearing after a reset re-arms cancelOnce, otherwise no later fault or reset could cancel the flows and the next stalled invocation would wedge the emulator", oneOf("zero", fw["cancelOnce"]...), fpos(cl), 1, "cancelOnce writes: %v", fw["cancelOnce"])
-	}
+	checkCancelRearmed(c)
 	// HandleReset: cancel first, then wait for the handler mutex
 	if hr := fn(c, "L/rapid", "(*rapidContext).HandleReset"); hr != nil {
 		cancels := an.CallsTo(hr, "L/core.RegistrationService.CancelFlows")
@@ -935,4 +934,12 @@ func lookupSite(tab map[string]siteJust, k string) (siteJust, bool) {
 		}
 	}
 	return siteJust{}, false
+}
+
+// checkCancelRearmed: the reset re-arms the once behind CancelFlows.
+func checkCancelRearmed(c *report.Ctx) {
+	if cl := fn(c, coreP, "(*registrationServiceImpl).Clear"); cl != nil {
+		fw := fieldWrites(cl, "L/core.registrationServiceImpl")
+		c.Check("R-RESET", "L/core.registrationServiceImpl.Clear/re-arms-cancel", "clearing after a reset re-arms cancelOnce, otherwise no later fault or reset could cancel the flows and the next stalled invocation would wedge the emulator", oneOf("zero", fw["cancelOnce"]...), fpos(cl), 1, "cancelOnce writes: %v", fw["cancelOnce"])
+	}
 }
